@@ -14,6 +14,9 @@ import (
 
 // fn resolves a function anchor; a missing anchor is an unproven obligation of the rule.
 func (c *Ctx) fn(rule, name string) *FuncInfo {
+	if c.Only != nil && !c.Only[name] {
+		return nil
+	}
 	fi := c.P.Func(name)
 	if fi == nil {
 		c.R.Unproven(rule, name, "anchor", "", "anchor no longer resolves: function "+name+" not found in the tree")
